@@ -70,6 +70,20 @@ CHECKS = {
         note=("Trusted base: TLC; sys.settrace line stepping of real threads and the one-handle-per-iteration event loop (lib/dispatch.py); "
               "a source line is the explored unit of atomicity; bounded number of preemptions; CPython atomicity of deque/Lock operations."),
     ),
+    "C07": dict(
+        category="model_checking",
+        engine="tlc-bind",
+        text=("Bind.tla transcribes argument injection (Layer: reserved names stripped, built-ins of the event in progress added; Bind: "
+              "slot-aligned positional phase, by-name phase, var-positional/var-keyword leftovers, `missing` only when nothing supplies a "
+              "required parameter) and TLC evaluates it, with a sanity theorem, for every enumerated (signature, call shape): all legal "
+              "signature shapes up to 3-4 parameters x 0-3 positionals x keyword subsets incl. undeclared names and attempted overrides of "
+              "built-ins. Each case is executed as a real exec-generated callable (method on machine/model/listener, function, partial, "
+              "coroutine) in a random callback group through a real event; the recorded locals must equal the spec's binding. All callables "
+              "share one qualified name so that signature-cache collisions would show."),
+        design_ref="DESIGN.md 5 C07",
+        technique="TLA+ transcription of the binding rule evaluated by TLC as oracle over an enumerated signature x call-shape space; differential execution on the implementation",
+        note="Trusted base: TLC evaluating Bind.tla; exec-generated callables recording their locals; one documented corner (positional-only parameter addressed by name) is left unspecified and skipped.",
+    ),
     "C08": dict(
         category="model_checking",
         engine="tlc-guardexpr",
@@ -183,6 +197,8 @@ def main():
             {"name": "tlc-system", "path": "/verif/spec/System.tla",
              "serves_properties": [p for p in CHECKS if CHECKS[p].get("engine", "tlc-system") == "tlc-system"],
              "kind_free_text": "explicit TLA+ specification (Engine.tla/System.tla), TLC exhaustive model checking (MC_System), batched TLC trace validation of executions recorded from the real library (Trace_System)"},
+            {"name": "tlc-bind", "path": "/verif/spec/Bind.tla", "serves_properties": ["C07"],
+             "kind_free_text": "TLA+ transcription of callback argument binding evaluated by TLC over harness-enumerated cases (Eval_Bind)"},
             {"name": "tlc-guardexpr", "path": "/verif/spec/GuardExpr.tla", "serves_properties": ["C08"],
              "kind_free_text": "TLA+ transcription of guard expressions (evaluation, rendering, parsing) evaluated by TLC over harness-enumerated cases (Eval_GuardExpr)"},
             {"name": "tlc-dispatch", "path": "/verif/spec/Dispatch.tla",
